@@ -986,6 +986,67 @@ def _exact_cover_no_rotation(blocks, R, C):
     return rec(0, frozenset())
 
 
+def run_binpack_step(ctx, NI, S, cover):
+    """BinPack RandomGenerator: the body of the splitting loop, `_split_space_into_sub_spaces`, on SYMBOLIC item spaces and mask: it preserves 'items inside the
+    container and pairwise disjoint' (so generate_solution is feasible, by induction over the loop) and replaces exactly one item by slabs that exactly cover it
+    along one axis, everything else untouched (so the items keep partitioning the container; volumes add up by the 1-D cover: linear arithmetic only)."""
+    from jumanji.environments.packing.bin_pack.generator import RandomGenerator as BG
+    from jumanji.environments.packing.bin_pack.space import Space
+    gen = BG(max_num_items=NI, max_num_ems=4, split_num_same_items=S)
+    name = f"BinPack.RandomGenerator[items{NI},same{S}]"
+    X, Y, Z = gen.container_dims
+    AX, LIM, F6 = ("x", "y", "z"), {"x": X, "y": Y, "z": Z}, ("x1", "x2", "y1", "y2", "z1", "z2")
+
+    def inv(sp, m):
+        out = {}
+        for a in AX:
+            lo, hi = getattr(sp, a + "1"), getattr(sp, a + "2")
+            out["items_non_empty_inside_container_" + a] = ~m | ((lo >= 0) & (lo < hi) & (hi <= LIM[a]))
+        dis = []
+        for i in range(NI):
+            for j in range(i + 1, NI):
+                sep = _any([(getattr(sp, a + "2")[i] <= getattr(sp, a + "1")[j]) | (getattr(sp, a + "2")[j] <= getattr(sp, a + "1")[i]) for a in AX])
+                dis.append(~(m[i] & m[j]) | sep)
+        if dis:
+            out["items_pairwise_disjoint"] = jnp.stack(dis)
+        return out
+
+    def req(key, sp, m):
+        return {**inv(sp, m), "at_least_one_item": jnp.any(m), "loop_condition_holds": jnp.sum(m) < NI - S + 1}
+
+    def ens(key, sp, m):
+        sp2, m2 = gen._split_space_into_sub_spaces(Space(**sp.__dict__), m, key)
+        out = {"C10.preserved." + k: v for k, v in inv(sp2, m2).items()}
+        if cover:
+            ok = jnp.asarray(False)
+            for j in range(NI):          # existential over the split item and the axis: finite disjunction
+                for a in AX:
+                    others = [b for b in AX if b != a]
+                    a1, a2 = getattr(sp, a + "1")[j], getattr(sp, a + "2")[j]
+                    c, tot = m[j], jnp.int32(0)
+                    for i in range(NI):
+                        unchanged = m2[i] & jnp.all(jnp.stack([getattr(sp2, k)[i] == getattr(sp, k)[i] for k in F6]))
+                        slab = jnp.all(jnp.stack([getattr(sp2, b + e)[i] == getattr(sp, b + e)[j] for b in others for e in "12"])) \
+                            & (getattr(sp2, a + "1")[i] >= a1) & (getattr(sp2, a + "2")[i] <= a2)
+                        c = c & ((~m2[i] | slab) if i == j else jnp.where(m[i], unchanged, ~m2[i] | slab))
+                        tot = tot + jnp.where(m2[i] & ((i == j) | ~m[i]), getattr(sp2, a + "2")[i] - getattr(sp2, a + "1")[i], 0)
+                    ok = ok | (c & (tot == a2 - a1))
+            out["C10.one_item_replaced_by_disjoint_slabs_that_exactly_cover_it_everything_else_untouched"] = ok
+        out["canary.mask_never_changes"] = jnp.all(m2 == m)
+        return out
+
+    sp0 = Space(**{k: jnp.zeros((NI,), jnp.int32) for k in F6})
+    _prove(ctx, name + "._split_space_into_sub_spaces", (KEY0, sp0, jnp.zeros((NI,), bool)), ens, req, while_bound=S + 1,
+           targets=[BG._split_space_into_sub_spaces, BG._split_along_axis, BG._split_item_once, BG._split_item_multiple_times])
+    # base case: the loop starts from the container as the only item (observable as the result of the generator when the loop body never runs)
+    g1 = BG(max_num_items=1, max_num_ems=4, split_num_same_items=1)
+    sol = g1.generate_solution(KEY0)
+    ok = bool(sol.items_mask[0]) and (int(sol.items.x_len[0]), int(sol.items.y_len[0]), int(sol.items.z_len[0])) == tuple(g1.container_dims) \
+        and (int(sol.items_location.x[0]), int(sol.items_location.y[0]), int(sol.items_location.z[0])) == (0, 0, 0)
+    ctx.structural(f"{name}/C10.splitting_starts_from_the_container_as_the_only_item", ok, "native evaluation (the loop body never runs at max_num_items=1)",
+                   targets=[BG._split_container_into_items_spaces])
+
+
 def run_binpack_bounded(ctx, cfgs, nkeys):
     _fresh()
     from jumanji.environments.packing.bin_pack.generator import RandomGenerator as BG
@@ -1123,7 +1184,8 @@ def run_sliding(ctx, g, L):
     gen2 = RW(g, 100)
     st = jax.jit(jax.vmap(gen2))(jax.vmap(jax.random.PRNGKey)(jnp.arange(n)))
     pz, pos = np.asarray(st.puzzle), np.asarray(st.empty_tile_position)
-    bad = [k for k in range(n) if not (sorted(pz[k].ravel().tolist()) == list(range(g * g)) and pz[k][tuple(pos[k])] == 0 and bool(solvable(jnp.asarray(pz[k]), int(pos[k][0]))))]
+    bad = [k for k in range(n) if not (sorted(pz[k].ravel().tolist()) == list(range(g * g)) and bool(np.all((pos[k] >= 0) & (pos[k] < g))) and pz[k][tuple(pos[k])] == 0
+                                       and bool(solvable(jnp.asarray(pz[k]), int(pos[k][0]))))]
     ctx.bounded_check(f"SlidingTilePuzzle.RandomWalkGenerator[{g}x{g},100 moves]/C10.permutation_blank_consistent_and_parity_solvable", n, len(bad),
                       f"native run on PRNGKey(0..{n - 1})", {"key": f"PRNGKey({bad[0]})", "puzzle": pz[bad[0]].tolist()} if bad else None)
     _not_constant(ctx, name, gen2, lambda s_: s_.puzzle, [RW.__call__], keys=8)
@@ -1249,6 +1311,8 @@ def tasks(tier):
     out["FlatPack.RandomFlatPackGenerator[bounded]"] = (run_flatpack_bounded, {"sizes": ((2, 2), (2, 3)) if q else ((1, 3), (2, 2), (2, 3), (3, 3)), "nkeys": 40 if q else 200})
     out["Sudoku.generators"] = (run_sudoku, {})
     out["toy_and_fixed_generators"] = (run_toys, {})
+    for (NI, S, cover) in (((2, 1, True), (3, 1, True), (4, 1, True), (3, 2, False)) if q else ((2, 1, True), (3, 1, True), (4, 1, True), (6, 1, True), (3, 2, False), (5, 3, False))):
+        out[f"BinPack.RandomGenerator[items{NI},same{S}].split_step"] = (run_binpack_step, {"NI": NI, "S": S, "cover": cover})
     out["BinPack.RandomGenerator[bounded]"] = (run_binpack_bounded, {"cfgs": ((2, 3, 1), (6, 10, 2), (20, 80, 5)) if q else ((2, 3, 1), (3, 4, 1), (6, 10, 2), (20, 80, 5), (40, 100, 5)),
                                                                       "nkeys": 50 if q else 300})
     # ---- 5. Connector random walk
@@ -1274,7 +1338,9 @@ NOT_VERIFIED = [
     "the global connectivity of bigger mazes is a bounded flood-fill stand-in only",
     "Connector RandomWalkGenerator / MMST SplitRandomGenerator / BinPack RandomGenerator / SlidingTile with the default 100 moves: solvability is a bounded stand-in on real keys "
     "(the generator's own solved grid / own sub-graph split / generate_solution is checked as the witness); not proved for all keys",
-    "BinPack RandomGenerator symbolic proof (while loop over float splits) dropped: not attempted in the quick tier, bounded native check instead; BinPack CSVGenerator needs a user file: not checked",
+    "BinPack RandomGenerator: the splitting loop is proved by induction on its body (inside container, pairwise disjoint: all listed sizes; exact 1-D cover of the split item: only "
+    "split_num_same_items=1, the clause times out (120 s) for >= 2 because of the float division by the symbolic number of copies); termination of the loop is probabilistic and not proved; "
+    "end-to-end (volumes add up, generate_solution feasible) is a bounded native check; BinPack CSVGenerator needs a user file: not checked",
     "RubiksCube: 'every colour on n^2 stickers' dropped from the generator problem (counting clause 25-45 s each); it follows from C17 (every move is a proved bijection of stickers) and "
     "the proved clause 'the cube is reached from the solved cube by legal moves'",
     "Sokoban Toy/SimpleSolve levels: well-formedness only (solvability would need a Sokoban solver); DeepMind / HuggingFace dataset generators need a download: not checked",
